@@ -250,6 +250,69 @@ theorem norm_finished_last (n n' : Norm) (out : List Ev) (hfin : n.fin = .no)
 theorem norm_passthrough_after_finished (n : Norm) (e : Ev) (h : n.fin = .emitted) :
     n.handle e = some (n, [e]) := by simp [Norm.handle, h]
 
+/-! ## The whole run -/
+
+/-- run-Finished has not been seen: the queue is still open -/
+theorem normRun_fin_no (n n' : Norm) (evs : List Ev) (outs : List (List Ev)) (hok : NormOk n) (hfin : n.fin = .no)
+    (hnf : ∀ e ∈ evs, e ≠ Ev.finished) (hs : SafeRun n evs = true) (hr : normRun n evs = some (n', outs)) :
+    n'.fin = .no := by
+  induction evs generalizing n outs with
+  | nil => simp only [normRun, Option.some.injEq, Prod.mk.injEq] at hr; obtain ⟨rfl, _⟩ := hr; exact hfin
+  | cons e es ih =>
+    simp only [SafeRun, Bool.and_eq_true] at hs
+    simp only [normRun] at hr
+    cases hh : n.handle e with
+    | none => simp [hh] at hs
+    | some r =>
+      obtain ⟨n1, out⟩ := r
+      simp only [hh] at hs hr
+      obtain ⟨_, hok1, hfin1, _, _, hC⟩ := handle_step n n1 e out hok (by rw [hfin]; decide) hs.1 hh
+      have hne : n1.fin ≠ .emitted := hC (by rw [hfin]; decide) (hnf e (by simp))
+      have hno : n1.fin = .no := by cases hn : n1.fin <;> simp_all
+      cases hr2 : normRun n1 es with
+      | none => simp [hr2] at hr
+      | some r2 =>
+        obtain ⟨n2, outs2⟩ := r2
+        simp only [hr2, Option.some.injEq, Prod.mk.injEq] at hr
+        obtain ⟨rfl, _⟩ := hr
+        exact ih n1 outs2 hok1 hno (fun e he => hnf e (by simp [he])) hs.2 hr2
+
+/-- **T1 + T5 over a whole run.** A contract-abiding stream `pre ++ [Finished]` (no other run-Finished)
+    comes out as `pre' ++ [Finished]` where `pre'` is a permutation of `pre`: the same multiset of events,
+    and run-Finished is the very last event forwarded. -/
+theorem norm_T1_finished_last (pre : List Ev) (hnf : ∀ e ∈ pre, e ≠ Ev.finished)
+    (hs : SafeRun Norm.init (pre ++ [Ev.finished]) = true) :
+    ∃ n outs pre', normRun Norm.init (pre ++ [Ev.finished]) = some (n, outs) ∧
+      outs.flatten = pre' ++ [Ev.finished] ∧ pre' ~ pre := by
+  obtain ⟨hs1, hs2⟩ := safeRun_append Norm.init pre [Ev.finished] hs
+  obtain ⟨n1, outs1, hr1, hp1, hok1, hfin1, _⟩ :=
+    norm_T1_perm_from Norm.init pre (by simp [NormOk, Norm.init]) (by simp [Norm.init]) (by simp [Norm.init]) hs1
+  have hno : n1.fin = .no :=
+    normRun_fin_no Norm.init n1 pre outs1 (by simp [NormOk, Norm.init]) (by simp [Norm.init]) hnf hs1 hr1
+  have hs3 := hs2 n1 outs1 hr1
+  simp only [SafeRun, Bool.and_eq_true] at hs3
+  cases hh : n1.handle Ev.finished with
+  | none => simp [hh] at hs3
+  | some r =>
+    obtain ⟨n2, out⟩ := r
+    obtain ⟨hp, _, _, hA, _, _⟩ := handle_step n1 n2 Ev.finished out hok1 hfin1 hs3.1 hh
+    have hrun : normRun Norm.init (pre ++ [Ev.finished]) = some (n2, outs1 ++ [out]) := by
+      rw [normRun_append, hr1]; simp [normRun, hh]
+    have hb := hA rfl (by rw [hno]; decide)
+    rw [hb.1, append_nil] at hp
+    have hlast := (norm_finished_last n1 n2 out hno hh).1
+    obtain ⟨out', rfl⟩ : ∃ out', out = out' ++ [Ev.finished] := by
+      have hne : out ≠ [] := by intro h0; rw [h0] at hlast; simp at hlast
+      refine ⟨out.dropLast, ?_⟩
+      have := dropLast_concat_getLast hne
+      rw [getLast?_eq_some_getLast hne, Option.some.injEq] at hlast
+      rw [hlast] at this
+      exact this.symm
+    refine ⟨n2, outs1 ++ [out' ++ [Ev.finished]], outs1.flatten ++ out', hrun, by simp, ?_⟩
+    have h1 : out' ~ buffered n1 := (perm_append_right_iff [Ev.finished]).mp hp
+    have h2 : outs1.flatten ++ out' ~ outs1.flatten ++ buffered n1 := Perm.append_left _ h1
+    exact h2.trans (hp1.trans (by simp [buffered, Norm.init, bufFeats]))
+
 /-! ## Non-vacuity: an interleaved contract-abiding stream -/
 def ka : ScenKey := ⟨1, none, 10⟩
 def kb : ScenKey := ⟨2, some 5, 20⟩
